@@ -496,6 +496,14 @@ Definition m_unknown_canonical_cmp := unknown_canonical_cmp_gen unknown_canonica
 Definition m_zone_unknown_hash (r : N) (d : bytes) : list N :=
   (if zone_unknown_hash_feeds_rtype then [r] else []) ++ N.of_nat (length d) :: d.
 
+(* AllRecordData::eq on two Unknown (or two Opt) values: the inner equality
+   if the match has an arm for the variant, else the fallback `(_, _) => false` *)
+Definition all_eq_gen (has_arm : bool) (inner_eq : bool) : bool := if has_arm then inner_eq else false.
+Definition m_all_unknown_eq (r1 : N) (d1 : bytes) (r2 : N) (d2 : bytes) : bool :=
+  all_eq_gen all_record_data_eq_has_unknown_arm (m_unknown_eq r1 d1 r2 d2).
+Definition m_all_opt_eq (d1 d2 : bytes) : bool :=
+  all_eq_gen all_record_data_eq_has_opt_arm (bytes_eqb d1 d2).
+
 (* ------------------------------------------------------------------ records *)
 
 (* Record<N, D> and RecordHeader<N> as functions from field codes
@@ -576,3 +584,5 @@ Definition c04_unknown_eq := m_unknown_eq.
 Definition c04_unknown_ccmp := m_unknown_canonical_cmp.
 Definition c04_ipseckey_ccmp := m_ipseckey_name_canonical_cmp.
 Definition c04_ipseckey_none_hash := m_ipseckey_gateway_hash None.
+Definition c04_all_unknown_eq := m_all_unknown_eq.
+Definition c04_all_opt_eq := m_all_opt_eq.
